@@ -222,6 +222,10 @@ def build(topo, hl, initial_modes=None, gap=6):
                 steps += [{"op": "bans", "label": lab + ":post"}] + arm(None)
                 if not s.get("fate"):
                     steps += [{"op": "send", "c": c, "msgs": [{"t": "X"}]}]
+            elif s.get("arm"):
+                armx = lambda a: [{"op": "backend", "b": x["name"], "fault_on": ({"tags": a[0], "kind": a[1]} if a else None)} for x in topo.addrs if x["role"] == "R"]
+                steps += armx(s["arm"]) + [{"op": "bans", "label": lab + ":pre"}, {"op": "send", "c": c, "msgs": msgs},
+                                          {"op": "recv", "c": c, "until": "Z", "timeout_ms": s.get("wait", SHAPE_WAIT), "label": lab}, {"op": "bans", "label": lab + ":post"}] + armx(None)
             elif s.get("fate"):
                 # the client goes away while its statement is in flight: closes right after sending, or resets
                 # its socket (SO_LINGER 0) 30 ms later; nothing is read.  The ban list is looked at after `settle` ms.
@@ -378,6 +382,24 @@ def gone_verdict(topo, s, ob, modes):
         ob["post"] = [b for b in ob["post"] if topo.by_host[b["host"]]["name"] != srv or b in ob["pre"]]
 
 
+def oob_verdict(topo, s, ob):
+    """A Bind of a cached named statement on a server connection that lacks it: pgcat sends its own Parse + Sync first.
+    The server is the backend that logged a Parse / Bind in the window."""
+    ob["stmt_at"] = ob["contacts"][0] if ob["contacts"] else None
+    if ob["kind"] == "other_error" and "does not exist" in str(ob["arg"]):
+        ob["kind"], ob["arg"] = "oob", "OobServerError"      # the server rejected the re-prepare, then the Bind: the client is told
+    elif ob["kind"] == "closed_silent" and ob["stmt_at"]:
+        ob["kind"], ob["arg"] = "oob", "OobConnFail"         # client.rs:1854: the error ends the client task without a message
+    st = os.environ.get("VERIF_C07_SELFTEST_OOB")
+    if st == "A" and ob["arg"] == "OobConnFail":
+        # self-test: an implementation whose guard is inverted (socket failures of the exchange do not ban)
+        ob["post"] = [b for b in ob["post"] if topo.by_host[b["host"]]["name"] != ob["stmt_at"] or b in ob["pre"]]
+    if st == "B" and ob["arg"] == "OobServerError" and ob["stmt_at"]:
+        # self-test: an implementation that bans the server whenever the exchange returns an error
+        a = topo.by_name[ob["stmt_at"]]
+        ob["post"] = ob["post"] + [{"host": a["host"], "port": 0, "shard": a["shard"], "index": a["id"], "role": "Replica", "reason": "MessageSendFailed", "ts": ob["t1"] // 1000}]
+
+
 def bl_match(model_bl, obs_bl, nows, t0s, t1s):
     """model_bl / obs_bl: lists of (id, reason, ts).  Same keys and reasons; time stamps equal, or the
     model's stamp is one of this step's clock readings (a ban made in this step) and the observed one
@@ -431,7 +453,7 @@ def match_txn(topo, s, ob, modes, allowed, nows):
             srv = ob["arg"] if kind == "ok" else ob["stmt_at"]
             if res[0] != "ok" or name_of[res[1]] != srv:
                 why.append("result"); continue
-        elif kind == "exec":
+        elif kind in ("exec", "oob"):
             if res[0] != "ok" or (ob["stmt_at"] and name_of[res[1]] != ob["stmt_at"]):
                 why.append("result"); continue
         elif kind == "refused":
@@ -479,6 +501,17 @@ def monitors(topo, s, ob, modes):
     # (a statement that then fails on a broken server the checkout handed out is the other sentence of the property)
     if usable and ob["kind"] in ("refused", "closed_silent", "other_error"):
         bad.append("candidate(s) %s usable (healthy and not under an unexpired ban) but the transaction was refused: %s %s" % (usable, ob["kind"], ob["arg"]))
+    if s.get("oob"):
+        f, srv = s.get("oob_fault"), ob["stmt_at"]
+        newly = [n for n in post if n not in pre or post[n] != pre[n]]
+        if f in (None, "error") and newly:
+            bad.append("pgcat re-prepared a statement on %s out of band; %s; yet %s was banned: %s" %
+                       (srv, "the server REJECTED it with an ErrorResponse (the server is fine)" if f else "the server accepted it", newly, brief(ob["post"])))
+        if f in ("close", "mid") and srv and topo.by_name[srv]["role"] == "R" and (srv not in post or post[srv]["reason"] != "MessageSendFailed"):
+            bad.append("the connection to %s died while pgcat re-prepared a statement on it out of band (%s) and %s is not banned MessageSendFailed: %s" % (srv, f, srv, brief(ob["post"])))
+        want = {None: ("ok", None), "error": ("oob", "OobServerError"), "close": ("oob", "OobConnFail"), "mid": ("oob", "OobConnFail")}.get(f)
+        if want and (ob["kind"], ob["arg"] if ob["kind"] == "oob" else None) != want:
+            bad.append("out-of-band re-prepare with fault %s: the client saw %s %s (expected %s)" % (f, ob["kind"], ob["arg"], want))
     if ob["kind"] == "exec" and ob["stmt_at"] and topo.by_name[ob["stmt_at"]]["role"] == "R":
         want = {"KRecv": "MessageReceiveFailed", "KStmtTimeout": "StatementTimeout", "KSend": "MessageSendFailed"}[ob["arg"]]
         if ob["stmt_at"] not in post or post[ob["stmt_at"]]["reason"] != want:
@@ -678,6 +711,21 @@ def scripted(quick):
             for _ in range(0 if quick else 2):
                 hl += [dict(x) for x in hl[:18]]
             out.append(("shape-%s-%s" % (shape, fault), t, hl, None))
+    # statement caching on (prepared_statements_cache_size 8): a client Parses a named statement on the primary and Binds it
+    # in a later transaction routed to a replica, whose connection lacks it: pgcat re-prepares it there with its OWN
+    # Parse + Sync.  The server may accept, REJECT the statement (ErrorResponse: no ban, the replica keeps serving), or its
+    # connection may die at that Parse (closed / half an answer: ban MessageSendFailed, later transactions bypass it).
+    for lb in ("random", "loc"):
+        for rep in range(1 if quick else 4):
+            t = Topo([["P", "R", "R"]], hc=False, lb=lb, ps_cache=8)
+            hl = []
+            for i, f in enumerate(["error", "close", None, "mid", "error", "close"]):
+                c, nm = "pc%d" % i, "st%d" % i
+                bes = [{"t": "B", "portal": "", "name": nm, "params": []}, {"t": "E", "portal": "", "max": 0}, {"t": "S"}]
+                hl += [{"op": "txn", "role": "primary", "c": c, "keep": True, "msgs": [{"t": "P", "name": nm, "sql": "SELECT %d /*prep%d*/" % (i, i), "types": []}] + bes},
+                       dict({"op": "txn", "role": "replica", "c": c, "reuse": True, "keep": True, "msgs": bes, "oob": True, "oob_fault": f, "wait": SHAPE_WAIT}, **({"arm": ("P", f)} if f else {})),
+                       {"op": "showbans"}, {"op": "txn", "role": "replica"}, {"op": "txn", "role": "replica"}, {"op": "unban", "b": "r1"}, {"op": "unban", "b": "r2"}]
+            out.append(("oob-reprepare-%s-%d" % (lb, rep), t, hl, None))
     # two shards: bans and the all-banned reset are per shard
     t = Topo([["P", "R", "R"], ["P", "R", "R"]], hc=True)
     hl = [{"op": "mode", "b": "r1", "mode": "down"}, {"op": "mode", "b": "r2", "mode": "down"}] + \
@@ -779,25 +827,31 @@ def run_and_check(run, col, wire, cases, stats, label, workers=16):
             m = modes[s["k"]]
             if s["op"] == "txn":
                 ob = observe_txn(topo, s, w)
-                if s.get("fate"):
+                if s.get("oob"):
+                    oob_verdict(topo, s, ob)
+                elif s.get("fate"):
                     gone_verdict(topo, s, ob, m)
                 elif s.get("shape") and ob["kind"] == "closed_silent" and ob["stmt_at"] and \
                         any(b["reason"] == "MessageSendFailed" and topo.by_host[b["host"]]["name"] == ob["stmt_at"] for b in ob["post"] if b not in ob["pre"]):
                     ob["kind"], ob["arg"] = "exec", "KSend"   # client.rs:2052: a failed write to the server bans and ends the client task without a message
                 st = {"s": s, "ob": ob, "modes": m}
                 info["steps"].append(st)
-                if ob["kind"] in ("ok", "ok_err", "exec", "refused"):
+                if ob["kind"] in ("ok", "ok_err", "exec", "refused", "oob"):
                     role = s.get("role") or (None if topo.default_role == "any" else topo.default_role)
                     req = {"replica": "(Some Replica)", "primary": "(Some Primary)"}.get(role, "None")
                     shard = "None" if s.get("shard") is None else "(Some %d%%nat)" % s["shard"]
                     cands = topo.candidates(role, s.get("shard"))
                     opts = "[" + "; ".join("(%s, [%s])" % (topo.coq_addr(a), "; ".join(outcome_options(m[a["name"]], a["name"] in s.get("busy", []), m["#flags"].get(a["name"], ()), not topo.hc))) for a in cands) + "]"
                     nows = sorted(set([ob["t0"] // 1000, ob["t1"] // 1000] + list(range(ob["t0"] // 1000, ob["t1"] // 1000 + 1))))
-                    ek = "(Some %s)" % ob["arg"] if ob["kind"] == "exec" else "None"
+                    if ob["kind"] == "exec":
+                        ek = "(Some (fun a now => ExecFail a %s now %s))" % (ob["arg"], "true" if s.get("fate") else "false")
+                    elif ob["kind"] == "oob" or (s.get("oob") and ob["kind"] == "ok"):
+                        ek = "(Some (fun a now => OobPrepare a %s now))" % (ob["arg"] if ob["kind"] == "oob" else "OobOk")
+                    else:
+                        ek = "None"
                     st["nows"] = nows
                     first = "[" + "; ".join(topo.coq_addr(topo.by_name[n]) for n in s.get("first", [])) + "]"
-                    exprs.append("tie_txn %s %s %s %s %s [%s] %s %s %s" % (topo.coq_cfg(), coq_bl(topo, ob["pre"]), req, shard, opts, "; ".join(str(n) for n in nows), ek, first,
-                                                                         "true" if s.get("fate") else "false"))
+                    exprs.append("tie_txn %s %s %s %s %s [%s] %s %s" % (topo.coq_cfg(), coq_bl(topo, ob["pre"]), req, shard, opts, "; ".join(str(n) for n in nows), ek, first))
                     where.append((ci, len(info["steps"]) - 1))
             else:
                 frames = []
@@ -846,6 +900,10 @@ def run_and_check(run, col, wire, cases, stats, label, workers=16):
             fk = "%s/%s" % (s.get("fate", "stays"), ob["arg"] if ob["kind"] == "exec" else ob["kind"])
             if s.get("fate") or s.get("kill"):
                 stats["client_fates"][fk] = stats["client_fates"].get(fk, 0) + 1
+            if s.get("oob"):
+                ok_ = "%s" % (s.get("oob_fault") or "none")
+                stats["oob"][ok_] = stats["oob"].get(ok_, [])
+                stats["oob"][ok_].append("%s %s on %s, bans %s -> %s" % (ob["kind"], ob["arg"], ob["stmt_at"], brief(ob["pre"]), brief(ob["post"])))
             if s.get("shape"):
                 sk = "%s/%s/%s" % (s["shape"], s["fault"], s.get("fate", "stays"))
                 stats["shapes"][sk] = "%s %s" % (ob["kind"], ob["arg"]) + ("" if ob["kind"] != "exec" or s.get("fate") else " after %d ms" % (ob["t1"] - ob["t0"]))
@@ -979,7 +1037,7 @@ def check_site(run, col, s, ob, replay, stats):
 
 def new_stats():
     return {"steps": 0, "evaluations": 0, "validated": 0, "set_valued": 0, "allowed_sizes": [], "txn_kinds": {}, "distinct": set(), "monitor_failures": 0, "violations": 0,
-            "harness_errors": 0, "unmodelled": {}, "samples": [], "admin_steps": 0, "unban_events": 0, "silent_failovers": 0, "sites": {}, "observed": {}, "client_fates": {}, "shapes": {}, "unobservable": 0, "obs_primary_ban_row": 0, "obs_showbans_hides_due": 0}
+            "harness_errors": 0, "unmodelled": {}, "samples": [], "admin_steps": 0, "unban_events": 0, "silent_failovers": 0, "sites": {}, "observed": {}, "client_fates": {}, "shapes": {}, "oob": {}, "unobservable": 0, "obs_primary_ban_row": 0, "obs_showbans_hides_due": 0}
 
 
 def check(run):
@@ -1084,6 +1142,7 @@ def check(run):
     run.cov["client_fate_x_statement_outcome"] = stats["client_fates"]
     run.cov["unobservable_steps"] = stats["unobservable"]
     run.cov["statement_shape_x_fault_x_client_fate"] = stats["shapes"]
+    run.cov["out_of_band_reprepare"] = {k: {"n": len(v), "e.g.": v[0]} for k, v in stats["oob"].items()}
     # the RST fate is only meaningful if pgcat's write of the error to that client really fails
     wf = sum(sum(1 for r in (info["res"].get("task_results") or []) if "Error writing to socket" in r) for info in per_case if "error" not in info)
     run.cov["client_write_failures_observed"] = wf
